@@ -27,6 +27,10 @@ TEXT_POSITIONS = [
     "4k3/8/8/8/8/8/3n4/R3K2R w KQ - 0 1",                       # in check: castling texts must be refused
     "8/8/8/8/8/4k3/8/R3K2R w - - 0 1",                          # king on e1 without rights: e1g1 is not a move
     "4k3/8/8/8/8/8/8/4KQ1R w - - 0 1",
+    "r3k2r/8/8/8/8/8/8/R3K2R w Qk - 0 1",                        # one right per side: the other castling text is no move
+    "r3k2r/8/8/8/8/8/8/R3K2R w Kq - 0 1",
+    "r3k2r/8/8/8/8/8/8/R3K2R b Qk - 0 1",
+    "r3k2r/8/8/8/8/8/8/R3K2R b Kq - 0 1",
 ]
 
 
@@ -318,6 +322,14 @@ def session_script(rng, n):
     for _ in range(n):
         r = rng.below(100)
         d = rng.choice([0, 0, 0, 1, 3, 10, 30, 60])
+        if rng.chance(1, 12):
+            # a depth-limited search of a position that was searched deeper before (same table): must still answer
+            pos = rng.choice(POS_OK)
+            hi = 3 + rng.below(3)
+            lo = 1 + rng.below(hi - 1)
+            out += [("stop", "stop", d), (pos, "pos1", 0), ("go depth %d" % hi, "go0", 0), ("wait", "wait", 0),
+                    (pos, "pos1", 0), ("go depth %d" % lo, "go0", 0), ("wait", "wait", 0), ("isready", "isready", 0)]
+            continue
         if r < 22:
             out.append((rng.choice(POS_OK), "pos1", d))
         elif r < 27:
@@ -632,7 +644,8 @@ def mutate(fen, rng):
     while len(fields) < 4:
         fields.append("-")
     kind = rng.below(16)
-    chars = ["0", "9", "/", "K", "k", "x", "A", "ü", " ", "8", "1", "p", "-", "q", "w", "3", "6", "š", "I"]
+    chars = ["0", "9", "/", "K", "k", "x", "A", "ü", " ", "8", "1", "p", "-", "q", "w", "3", "6", "š", "I",
+             "\uff18", "\u0663", "\u3038", "\u0f33", "\ua835", "\u00b2", "\u00bd", "\u2167", "\U0001d7d6"]
 
     def edit(s):
         if not s:
@@ -652,7 +665,8 @@ def mutate(fen, rng):
     if kind == 5:
         rows = fields[0].split("/")
         r = rng.below(8)
-        rows[r] = rng.choice(["7", "9", "54", "44", "8p", "p8", "ppppppppp", "", "71", "17", "0", "08", "4k4"])
+        rows[r] = rng.choice(["7", "9", "54", "44", "8p", "p8", "ppppppppp", "", "71", "17", "0", "08", "4k4",
+                              "\uff18", "\u3038", "\u0f33p4", "\uff17p", "p\u0668", "\u00b2pppppp", "3\ua835"])
         fields[0] = "/".join(rows)
         return " ".join(fields), "rank length"
     if kind == 6:
